@@ -13,7 +13,9 @@ LEVEL_TEXT = ('Generated loop bodies (params / Dense / nested child / counters /
               'every assignment of the collections {params, state, batch_stats} to axis k (0..rank, In/Out) / broadcast / carry, length 1-4, '
               'reverse, unroll in {1,2,len}, in_axes/out_axes in {0,1} and None-broadcast inputs, split_rngs per stream, at init and apply; nn.vmap with '
               'axis / None collections, in/out axes, axis_size; nn.remat_scan with lengths (n,) and (a,b). Each result is compared with a '
-              'Python loop over sliced variables that calls the same body standalone.')
+              'Python loop over sliced variables that calls the same body standalone.'
+              ' Further streams: remat_scan rng splitting, scan-of-vmap nesting, negative axes, functional form on the'
+              ' enclosing module with pre-existing broadcast variables.')
 LEVEL_NOTE = ('The reference trusts the body module (its layers are C12/C02 matters) and NumPy slicing/stacking; float32 same-program '
               'tolerance. Keys: split streams must give pairwise distinct keys across iterations, unsplit streams one key.')
 TECHNIQUE = 'runtime monitoring: loop/stack reference oracle on generated scan/vmap configurations of the real lifted transforms'
